@@ -721,7 +721,7 @@ def formula_grammar(table):
 
     # Convert "(composite) count" to a pair
     opengrp = space + Literal('(').suppress() + space
-    closegrp = space + Literal(')').suppress() + space
+    closegrp = space + Literal(')').suppress()
     explicit_group = opengrp + composite + closegrp + count
     def convert_explicit(string, location, tokens):
         """convert (fragment)count"""
